@@ -124,6 +124,7 @@ func runCsvCase(c *Ctx, cfg csvCfgT, eol string, rows [][]string, text string) {
 }
 
 func propC09(c *Ctx) {
+	propScaleCsv(c)
 	cfgs := []csvCfgT{
 		{[]rune{','}, []rune{'"'}},
 		{[]rune{',', ';'}, []rune{'"', '\''}},
